@@ -25,14 +25,20 @@ def register(reg):
                  reads=['name', 'parent', 'contents', '_localNameToFullName_map', 'allobjects'], source='name expansion (C04, native harness)')
     reg.contract(M, 'System.objForFullName', params={'fullName': 'Str'}, returns='RefN[Documentable]', pure=True, raises={}, assumed=True,
                  reads=['allobjects'], ensures=['result == self.allobjects.get(fullName)'], source='self.allobjects.get(fullName)')
-    reg.contract(M, 'System.find_object', params={'full_name': 'Str'}, returns='RefN[Documentable]', pure=True, assumed=True,
+    # verified against the spec functions found / lookup_fails (specs/c02.py): registry first; a name whose first part is none of
+    # our roots is external (None); otherwise the alias in the first root of that name decides - found, or LookupError
+    reg.contract(M, 'System.find_object', params={'full_name': 'Str'}, returns='RefN[Documentable]', pure=True,
                  reads=['name', 'parent', 'contents', '_localNameToFullName_map', 'allobjects', 'rootobjects'],
+                 # every root is registered under its name (C02: System.addObject)
+                 requires=['all(r.name in self.allobjects for r in self.rootobjects)'],
                  raises={'LookupError': 'lookup_fails(self, full_name)'}, result_is='found(self, full_name)',
-                 ensures=['not lookup_fails(self, full_name)'],        # it returns exactly when it does not raise
-                 source='follows the alias chain from the root named by the first part; LookupError when the root is ours but the rest is unknown')
+                 ensures=['not lookup_fails(self, full_name)',        # it returns exactly when it does not raise
+                          'result == found(self, full_name)'],
+                 loops={0: Loop(index='i', invariant=['first_root(self, name_parts[0], 0) == first_root(self, name_parts[0], i)'])})
     EXP = 'self.system.objForFullName(self.expandName(name))'
     reg.contract(M, 'Documentable.resolveName', params={'name': 'Str'}, returns='RefN[Documentable]', pure=True,
                  reads=['name', 'parent', 'contents', '_localNameToFullName_map', 'allobjects', 'rootobjects', 'system'], raises={},
+                 requires=['all(r.name in self.system.allobjects for r in self.system.rootobjects)'],
                  ensures=[f'implies({EXP} is not None, result == {EXP})',
                           # the *expanded* name is what is looked up through the aliases
                           f'implies({EXP} is None and not lookup_fails(self.system, self.expandName(name)), result == found(self.system, self.expandName(name)))',
@@ -61,7 +67,9 @@ def register(reg):
             '(origin_module.all is None or origin_name not in origin_module.all))')
     reg.contract(A, 'ModuleVistor._handleReExport',
                  params={'curr_mod_exports': 'Set[Str]', 'origin_name': 'Str', 'as_name': 'Str', 'origin_module': 'Ref[Module]'},
-                 returns='Bool', requires=['self.builder.current is not None'],
+                 returns='Bool', requires=['self.builder.current is not None',
+                                           # every root is registered under its name (C02: System.addObject)
+                                           'all(r.name in origin_module.system.allobjects for r in origin_module.system.rootobjects)'],
                  modifies=full.modifies,
                  raises={'KeyError': 'True', 'AssertionError': 'not isinstance(self.builder.current, Module)'},
                  ensures=[
